@@ -1,24 +1,24 @@
 SPECIFICATION SSpec
 CONSTANTS
   Vars = {"a", "b", "c"}
-  Fams = {"amo", "pb"}
-  ClauseMax = 0
-  AmoSeq = 0
+  Fams = {"clause", "imply", "amo", "pb"}
+  ClauseMax = 2
+  AmoSeq = 2
   AmoMax = 3
   AmoPols = {0, 1}
-  HeuleKs = {}
+  HeuleKs = {3}
   PbShape = "ordered"
   PbTerms = 3
-  PbPols = {1}
+  PbPols = {0, 1}
   PbNeg = 0
-  PbPos = 1
-  PbBound = 3
+  PbPos = 3
+  PbBound = 8
   PbOps = {">="}
-  MaxMgrs = 2
-  MaxPosts = 2
+  MaxMgrs = 1
+  MaxPosts = 1
   EMIT = TRUE
-  PROBE = FALSE
-  ACKinds = {}
+  PROBE = TRUE
+  ACKinds = {"clause", "imply", "amo_quadratic", "amo_heule", "pb_clause"}
   RDecs = {TRUE, FALSE}
   RTerms = 0
   RCoef = 0
@@ -34,8 +34,6 @@ CONSTANTS
   CMax2 = 0
   KMax2 = 0
 CHECK_DEADLOCK FALSE
-INVARIANT AllowedIsConjunction
-INVARIANT Exact
-INVARIANT NeverDropped
-INVARIANT StoreCanonical
-INVARIANT LastDiagram
+INVARIANT ProbeSound
+INVARIANT ProbeDetectsInconsistency
+INVARIANT ProbeArcConsistent
